@@ -250,7 +250,10 @@ where
             match v {
                 Float::Value(n) => Ok(n),
                 Float::Missing => Ok(f32::from(v)),
-                _ => todo!("unhandled f32 array value: {:?}", v),
+                _ => Err(io::Error::new(
+                    io::ErrorKind::InvalidInput,
+                    format!("invalid info field float array value: {v:?}"),
+                )),
             }
         })
         .collect::<io::Result<_>>()?;
